@@ -4,7 +4,8 @@
    pkg/config/v1/*.go and pkg/msg/msg.go on every run (gen/GenCfgMsg.v, translator unit T3), so
    every theorem below is re-checked against what the code says today. *)
 From FRP Require Import Model.Literals Model.CfgMsg Model.CfgWire Model.Validate
-  Proofs.CfgMsgProofs Proofs.ValidateProofs Proofs.LiteralsProofs gen.GenMsg gen.GenCfgMsg.
+  Model.FlagsCheck Model.Template Proofs.CfgMsgProofs Proofs.ValidateProofs Proofs.LiteralsProofs Proofs.FlagsProofs
+  Proofs.TemplateProofs gen.GenMsg gen.GenCfgMsg gen.GenFlags Golden.GoldenFlags.
 Open Scope Z_scope.
 
 (* ---- the registration message loses nothing the server acts on ---- *)
@@ -82,6 +83,42 @@ Print Assumptions C18_no_acted_field_dropped.
 Theorem C18_newproxy_is_wire_schema : newproxy_matches_schema cfg_structs structs = true.
 Proof. vm_compute. reflexivity. Qed.
 Print Assumptions C18_newproxy_is_wire_schema.
+
+(* ---- command-line flags ---- *)
+
+(* Reflective, over today's flags.go (gen/GenFlags.v), today's struct tags (gen/GenCfgMsg.v) and the
+   pinned table Golden/GoldenFlags.v: every flag of RegisterProxyFlags (per proxy type), RegisterVisitorFlags,
+   RegisterClientCommonConfigFlags and RegisterServerConfigFlags writes the field whose file-format key
+   the pinned table names, with the pinned kind and short name; the sets are exactly the pinned ones;
+   no flag is bound twice, no field has two flags, no flag writes two fields (one target per binding,
+   names distinct), and the names stay distinct on the combined proxy sub-command. *)
+Theorem C18_flag_bindings_match :
+  (forall set bs, In (set, bs) flag_sets ->
+     exists es gs,
+       fc_entries cfg_structs bs = Some es /\
+       Forall (fun b => fc_is_unknown (fc_kind b) = false) bs /\
+       Forall2 (fun b e => fc_key cfg_structs b = Some (fc_e_key e) /\ fc_e_flag e = fc_flag b /\ fc_e_short e = fc_short b) bs es /\
+       In (set, gs) golden_flags /\ incl es gs /\ incl gs es /\
+       NoDup (map fc_e_flag es) /\ NoDup (map fc_e_key es) /\
+       NoDup (filter fc_nonempty (map fc_e_short es))) /\
+  (forall set gs, In (set, gs) golden_flags -> In set (map fst flag_sets)) /\
+  (forall cl set bs, cm_assoc "client" flag_sets = Some cl -> In (set, bs) flag_sets -> cm_str_prefix "proxy:" set = true ->
+     NoDup (map fc_flag (cl ++ bs)) /\ NoDup (filter fc_nonempty (map fc_short (cl ++ bs)))).
+Proof. exact (flag_bindings_sound cfg_structs golden_flags flag_sets (eq_refl true <: fc_all_ok cfg_structs golden_flags flag_sets = true)). Qed.
+Print Assumptions C18_flag_bindings_match.
+
+(* F-C18b, refuted clause: the dashboard TLS setting cannot be given through its flag.  BoolFuncFlag.Set
+   never consults its argument, so on the freshly registered flag TrueFunc (the only place that sets
+   webServer.tls from the flags) never runs — in particular not for the argument "true" — while the
+   file keys webServer.tls.certFile / keyFile do enable it.  C18_flag_bindings_match above is the part
+   that holds (the flag is bound where the table says); the harness replays the witness on every run. *)
+Theorem C18_dashboard_tls_flag_refuted : exists s, s = hx "74727565" /\ bff_enables_tls s = false.
+Proof. exists (hx "74727565"). split; reflexivity. Qed.
+Print Assumptions C18_dashboard_tls_flag_refuted.
+
+Theorem C18_dashboard_tls_flag_partial : forall s, bff_enables_tls s = false.
+Proof. intros s. reflexivity. Qed.
+Print Assumptions C18_dashboard_tls_flag_partial.
 
 (* ---- validation ---- *)
 
@@ -165,6 +202,19 @@ Theorem C18_bandwidth_text_roundtrip : forall fb s q,
 Proof. exact bandwidth_text_roundtrip_full. Qed.
 Print Assumptions C18_bandwidth_text_roundtrip.
 
+(* ---- templates ---- *)
+
+(* A templated document — literal text, {{ .Envs.NAME }}, and range loops over parseNumberRangePair /
+   parseNumberRange whose arguments are well-formed range lists of equal expansion length — renders to
+   exactly the concatenation of: the text, the environment values, and for every enumerated pair
+   (k-th number of the first list, k-th number of the second list) the loop body with the two numbers
+   written out.  (Model of the document shapes; text/template itself is observed.) *)
+Theorem C18_template_written_out : forall envs ss,
+  Forall sseg_wf ss ->
+  tpl_render envs (map sseg_tpl ss) = TOk (List.concat (map (written_out envs) ss)).
+Proof. exact template_written_out. Qed.
+Print Assumptions C18_template_written_out.
+
 (* ---- non-vacuity ---- *)
 Example C18_example_loaded :
   let fb := fun (_ : bytes) (b : Z) => Some (3 * b) in
@@ -193,3 +243,9 @@ Proof. vm_compute. split; reflexivity. Qed.
    trip is stated for non-empty slices *)
 Example C18_example_ports_empty : ports_string [] = [] /\ ports_parse [] = None.
 Proof. vm_compute. split; reflexivity. Qed.
+
+Example C18_example_template :
+  tpl_render [(hx "41", hx "7a")]
+    [TText (hx "783d"); TEnv (hx "41"); TText (hx "3b"); TEnv (hx "42"); TPairs (hx "352d362c39") (hx "31352d31362c3139") [PSFirst; PSText (hx "3a"); PSSecond; PSText (hx "20")]]
+  = TOk (hx "783d7a3b3c6e6f2076616c75653e353a313520363a313620393a313920").
+Proof. vm_compute. reflexivity. Qed.
